@@ -812,6 +812,40 @@ theorem mapTransposeDia_abs (f : R → R) (hf : f 0 = 0) (m : Dia R) (h : (m.dia
 
 end diaTransposeThm
 
+/-! ### `iadd_dense` -/
+section denseIaddThm
+variable {R : Type} [CommSemiring R]
+
+theorem lt_mul_of_lt {i j a b : Nat} (hi : i < a) (hj : j < b) : i * b + j < a * b := by
+  calc i * b + j < i * b + b := by omega
+    _ = (i + 1) * b := by rw [Nat.succ_mul]
+    _ ≤ a * b := Nat.mul_le_mul_right _ hi
+
+theorem div_of_mul_add {i j b : Nat} (hj : j < b) : (i * b + j) / b = i := by
+  rw [Nat.mul_comm, Nat.mul_add_div (by omega), Nat.div_eq_of_lt hj, Nat.add_zero]
+
+theorem mod_of_mul_add {i j b : Nat} (hj : j < b) : (i * b + j) % b = j := by
+  rw [Nat.mul_comm, Nat.mul_add_mod, Nat.mod_eq_of_lt hj]
+
+/-- **`iadd_dense` adds entry by entry in all four combinations of memory orders**, for every shape -/
+theorem iaddDense_abs (l r : Dense R) (s : R) (hr : r.rows = l.rows) (hc : r.cols = l.cols)
+    (i j : Nat) (hi : i < l.rows) (hj : j < l.cols) :
+    (iaddDense l r s).abs i j = l.abs i j + s * r.abs i j := by
+  unfold iaddDense
+  cases hl : l.fortran <;> cases hrf : r.fortran <;> simp only [Dense.abs, hl, hrf, hr, hc, beq_self_eq_true, if_true,
+    Bool.false_eq_true, if_false, beq_iff_eq, reduceCtorEq]
+  · -- both C-ordered
+    rw [if_pos (lt_mul_of_lt hi hj)]
+  · -- left C, right Fortran: dim1 = cols, dim2 = rows
+    rw [if_pos (lt_mul_of_lt hi hj), div_of_mul_add hj, mod_of_mul_add hj]
+  · -- left Fortran, right C: dim1 = rows, dim2 = cols
+    have h1 : i + j * l.rows = j * l.rows + i := Nat.add_comm _ _
+    rw [h1, if_pos (lt_mul_of_lt hj hi), div_of_mul_add hi, mod_of_mul_add hi, Nat.add_comm j (i * l.cols)]
+  · -- both Fortran-ordered
+    have h1 : i + j * l.rows = j * l.rows + i := Nat.add_comm _ _
+    rw [h1, if_pos (by rw [Nat.mul_comm l.rows l.cols]; exact lt_mul_of_lt hj hi)]
+end denseIaddThm
+
 /-- **a specialisation constructed by inserting conversions computes the same operation**: if the
 registered implementation refines `f` on the meanings and every converter preserves the meaning, so
 does the constructed one — for every requested combination of operand and output formats -/
